@@ -49,7 +49,12 @@ func main() {
 	out := flag.String("out", "trace.ndjson", "")
 	seed := flag.Int64("seed", 1, "")
 	reps := flag.Int("reps", 2, "")
+	h2cOut := flag.String("h2c", "", "")
+	nh2c := flag.Int("nh2c", 4, "")
 	flag.Parse()
+	if *h2cOut != "" {
+		h2c(*h2cOut, vlib.Rng(*seed, "c16-h2c"), *nh2c)
+	}
 	rng := vlib.Rng(*seed, "c16")
 	rd := vlib.SeededReader{R: rng}
 	o := vlib.Create(*out)
